@@ -591,3 +591,100 @@ pub fn selftest() -> Vec<(String, bool)> {
     r.push(("bridge to/from library representation".to_string(), from_lib_point(&lp) == Some(pk)));
     r
 }
+
+// ---------------------------------------------------------------- crafted curve points
+/// Roots in F_p of X^3 + c1 X + c0 when there is exactly ONE (None when there are zero or three roots):
+/// g = gcd(X^p - X, f) computed in F_p[X]/(f).
+pub fn cubic_single_root(c1: &BigUint, c0: &BigUint) -> Option<BigUint> {
+    let p = &curve().p;
+    let neg = |v: &BigUint| (p - (v % p)) % p;
+    // multiplication in F_p[X]/(X^3 + c1 X + c0); elements [e0, e1, e2]
+    let mul = |a: &[BigUint; 3], b: &[BigUint; 3]| -> [BigUint; 3] {
+        let mut t = vec![BigUint::zero(); 5];
+        for i in 0..3 {
+            for j in 0..3 {
+                t[i + j] = (&t[i + j] + &a[i] * &b[j]) % p;
+            }
+        }
+        // X^4 = -c1 X^2 - c0 X ; X^3 = -c1 X - c0
+        let t4 = t[4].clone();
+        t[2] = (&t[2] + &t4 * neg(c1)) % p;
+        t[1] = (&t[1] + &t4 * neg(c0)) % p;
+        let t3 = t[3].clone();
+        t[1] = (&t[1] + &t3 * neg(c1)) % p;
+        t[0] = (&t[0] + &t3 * neg(c0)) % p;
+        [t[0].clone(), t[1].clone(), t[2].clone()]
+    };
+    let x: [BigUint; 3] = [BigUint::zero(), BigUint::one(), BigUint::zero()];
+    let mut acc: [BigUint; 3] = [BigUint::one(), BigUint::zero(), BigUint::zero()];
+    for i in (0..p.bits()).rev() {
+        acc = mul(&acc, &acc);
+        if p.bit(i) {
+            acc = mul(&acc, &x);
+        }
+    }
+    // h = X^p - X (degree <= 2), f = X^3 + c1 X + c0
+    let mut h: Vec<BigUint> = vec![acc[0].clone(), (&acc[1] + p - 1u32) % p, acc[2].clone()];
+    let mut f: Vec<BigUint> = vec![c0 % p, c1 % p, BigUint::zero(), BigUint::one()];
+    let trim = |v: &mut Vec<BigUint>| {
+        while v.last().map(|c| c.is_zero()).unwrap_or(false) {
+            v.pop();
+        }
+    };
+    trim(&mut h);
+    // Euclid
+    while !h.is_empty() {
+        // f = f mod h
+        let lead_inv = h.last().unwrap().modinv(p).unwrap();
+        while f.len() >= h.len() {
+            let k = f.len() - h.len();
+            let q = (f.last().unwrap() * &lead_inv) % p;
+            for i in 0..h.len() {
+                let s = (&q * &h[i]) % p;
+                f[i + k] = (&f[i + k] + p - s) % p;
+            }
+            trim(&mut f);
+            if f.is_empty() {
+                break;
+            }
+        }
+        std::mem::swap(&mut f, &mut h);
+    }
+    // gcd is f
+    if f.len() == 2 {
+        let inv = f[1].modinv(p).unwrap();
+        Some((neg(&f[0]) * inv) % p)
+    } else {
+        None
+    }
+}
+
+/// curve point with the given x, if x^3 + ax + b is a square
+pub fn point_from_x(x: &BigUint) -> Option<(BigUint, BigUint)> {
+    let c = curve();
+    let rhs = (x * x * x + &c.a * x + &c.b) % &c.p;
+    sqrt_p(&rhs).map(|y| (x.clone(), y))
+}
+
+/// curve point whose x^2 has the given Montgomery representation (x^2 * 2^256 mod p = v)
+pub fn point_with_mont_x2(v: &[u64; 4]) -> Option<(BigUint, BigUint)> {
+    let c = curve();
+    if from_limbs(v) >= c.p {
+        return None;
+    }
+    let x = sqrt_p(&from_mont_p(v))?;
+    point_from_x(&x)
+}
+
+/// curve point whose x^3 + ax has the given Montgomery representation
+pub fn point_with_mont_x3ax(v: &[u64; 4]) -> Option<(BigUint, BigUint)> {
+    let c = curve();
+    if from_limbs(v) >= c.p {
+        return None;
+    }
+    let w = from_mont_p(v);
+    let y2 = (&w + &c.b) % &c.p;
+    let y = sqrt_p(&y2)?;
+    let x = cubic_single_root(&c.a, &((&c.p - &w) % &c.p))?;
+    Some((x, y))
+}
